@@ -50,8 +50,7 @@ static bool readOne(const std::string& text, int& ncols)
    out.setVerbosity(SPxOut::ERROR);
    lp.setOutstream(out);
    std::istringstream is(text);
-   NameSet rnames, cnames;      /* (with null name sets readLPF leaks its own NameSets: spx_free without destructor - not this unit's subject) */
-   bool ok = lp.readLPF(is, &rnames, &cnames, nullptr);
+   bool ok = lp.readLPF(is, nullptr, nullptr, nullptr);      /* null name sets: readLPF creates and must release its own (LeakSanitizer) */
    ncols = lp.nCols();
    return ok;
 }
@@ -78,6 +77,10 @@ int main(int argc, char** argv)
          for(int shape = 0; shape < 3; shape++)
          {
             long L = base + d;
+
+            if(shape == 0 && (d < -1 || d > 1))     /* thousands of terms: the expensive shape, fewer lengths */
+               continue;
+
             std::string text = "Maximize\n" + longLine(shape, L) + "\nSubject To\n c1: x1 <= 1\nEnd\n";
             int ncols = -1;
             bool ok = rat ? readOne<Rational>(text, ncols) : readOne<Real>(text, ncols);
